@@ -116,6 +116,8 @@ class FastEngine(Engine):
         return lambda fr: Agg(tag, [o(fr) for o in ops])
 
     def c_stmt(self, fn, st):
+        if re.match(r"^(StorageLive|StorageDead|FakeRead|PlaceMention|AscribeUserType|Coverage|ConstEvalCounter|Retag|nop)\b", st): return lambda fr: None      # no run-time effect in this model (const bodies keep their storage markers)
+        if " = " not in st: raise Unmodelled("MIR statement %r in %s" % (st[:120], fn.name))
         k = st.index(" = ")
         rv = self.c_rvalue(fn, st[k+3:-1] if st.endswith(";") else st[k+3:])
         lhs = st[:k]
@@ -241,6 +243,12 @@ class FastEngine(Engine):
             except AttributeError: self.cache[("code", f.name)] = code
         fr = Frame(f)
         fr.tysubst = tysubst
+        zi = self.cache.get(("zst", f.name))
+        if zi is None:
+            # locals of a capture-less closure type are never assigned in MIR (zero-sized): give them their value up front
+            zi = [(i, ty) for i, ty in getattr(f, "ltypes", {}).items() if isinstance(ty, str) and ty.startswith("{closure@") and ty in self.closure_index]
+            self.cache[("zst", f.name)] = zi
+        for i, ty in zi: fr.locals[i] = Agg(ty, [])
         for i, a in zip(f.args, args): fr.locals[i] = a
         self.depth += 1
         if self.depth > self.max_depth: raise Panic("recursion budget exceeded (%d interpreter frames) in %s" % (self.max_depth, f.name))
